@@ -258,11 +258,31 @@ def check_merge(cx: Cx, ob: Ob) -> None:
                 ob.violate(fn.qualname, where(fn, ev.line), f"_merge adds a value of `{show(rr)}` to into.{lst}", detail="wrong-source")
         # guard: membership in the full cover of `into`
         cover = set()
+        unknown_guard = False
         for g in ctx.guards:
-            if g.kind == "guard" and op(g.a) == "cmp" and g.a[1] in ("in", "not in") and g.a[2] == val and ((g.a[1] == "not in") == g.b):
-                cover |= {f for rr, f in _container_fields(prov, g.a[3]) if rr == into}
+            if g.kind != "guard":
+                continue
+            atoms = []
+            if op(g.a) == "and" and g.b is True:
+                atoms = [(x, True) for x in g.a[1]]
+            elif op(g.a) == "or" and g.b is False:
+                atoms = [(x, False) for x in g.a[1]]
+            else:
+                atoms = [(g.a, g.b)]
+            for c, pol in atoms:
+                while op(c) == "not":
+                    c, pol = c[1], not pol
+                if op(c) == "cmp" and c[1] in ("in", "not in") and c[2] == val and ((c[1] == "not in") == pol):
+                    cover |= {f for rr, f in _container_fields(prov, c[3]) if rr == into}
+                elif op(c) == "cmp" and c[1] in ("==", "!=") and val in (c[2], c[3]) and ((c[1] == "!=") == pol):
+                    other = c[3] if c[2] == val else c[2]
+                    cover |= {f for rr, f in prov.fields(other) if rr == into}
+                elif any(x == val for x in subterms(c)):
+                    unknown_guard = True
         missing = sides[lst] - cover
-        if missing:
+        if missing and unknown_guard:
+            ob.undecide(f"_merge: guard on the append to into.{lst} not recognised")
+        elif missing:
             ob.violate(
                 fn.qualname,
                 where(fn, ev.line),
